@@ -41,10 +41,24 @@ func setValues(thorough bool) []sval {
 		{Name: "typed-list", IsList: true, List: []string{"1", "true", "x,y"}},
 		{Name: "json-object", IsMap: true},
 		{Name: "braces-text", Text: "{x,y}"},
+		// every spelling class around the booleans: "true"/"false" in any letter case are booleans,
+		// the one-letter spellings t, T, f, F (strconv.ParseBool accepts them) stay strings, 0 and 1 are integers
+		{Name: "false", Text: "false"},
+		{Name: "true-upper", Text: "TRUE"},
+		{Name: "true-title", Text: "True"},
+		{Name: "true-mixed", Text: "tRuE"},
+		{Name: "false-upper", Text: "FALSE"},
+		{Name: "false-title", Text: "False"},
+		{Name: "false-mixed", Text: "fAlSe"},
+		{Name: "letter-t", Text: "t"},
+		{Name: "letter-T", Text: "T"},
+		{Name: "letter-f", Text: "f"},
+		{Name: "letter-F", Text: "F"},
+		{Name: "one-letter-list", IsList: true, List: []string{"s", "t", "f"}},
+		{Name: "bool-spellings-list", IsList: true, List: []string{"TRUE", "tRuE", "False", "T", "F", "0", "1"}},
 	}
 	if thorough {
 		v = append(v,
-			sval{Name: "bool-upper", Text: "FALSE"},
 			sval{Name: "null-mixed", Text: "Null"},
 			sval{Name: "negative", Text: "-5"},
 			sval{Name: "float", Text: "1.5"},
